@@ -171,7 +171,7 @@ Proof.
     assert (Lpb : List.length pb = List.length cb) by (unfold pb; rewrite pks_from_length, map_length; reflexivity).
     assert (Hcb : forall c, In c cb <-> In c ks /\ ing g c = true) by (intros c; apply filter_In).
     assert (NC : NoConflict pa pb sp).
-    { destruct Hkind as [(Hnb & Hall)|(Hbag & Hsp1 & _)].
+    { destruct Hkind as [(Hnb & Hall)|[(Hbag & Hsp1 & _)|(Hnb & Hsp1 & _)]].
       - right. intros a Hin _. apply in_pks_from in Hin as (k & c & Hk & ->).
         assert (Hc : In c ca) by (eapply nth_error_In; eauto).
         assert (Hcb' : In c cb).
@@ -179,6 +179,7 @@ Proof.
         destruct (in_nth_error cb c Hcb') as (j & Hj).
         pose proof (partner_b_some kcore ks Hinj cb Hb Nb (N.of_nat k) j c (Ha c Hc) Hj) as Ep. fold pb in Ep.
         unfold has_partner. rewrite Ep. reflexivity.
+      - left. rewrite Hsp in Hsp1. injection Hsp1 as ->. reflexivity.
       - left. rewrite Hsp in Hsp1. injection Hsp1 as ->. reflexivity. }
     destruct (walk_partition pa pb sp (N.of_nat (List.length hs)) K NC) as (wk & Ew & Em & Ea & Eb).
     rewrite Ew, Em, Ea, Eb, !map_k_id_inj.
